@@ -6,7 +6,7 @@ from lib import Case, fmt_list
 
 PROP = "C18"
 DRIVER = "drv-c18"
-PROOF_MODULES = ["TetlProofs.C18.Props", "TetlProofs.C18.PropsCtype"]
+PROOF_MODULES = ["TetlProofs.C18.Props", "TetlProofs.C18.PropsCtype", "TetlProofs.C18.PropsDiv"]
 HARNESS = "harness/c18.cpp"
 SOURCES = ["include/etl/_strings/cstr.hpp", "include/etl/_cstring", "include/etl/_cwchar", "include/etl/_cctype",
            "include/etl/_cwctype", "include/etl/_cstdlib/div.hpp", "include/etl/_cstdlib/labs.hpp",
@@ -36,17 +36,15 @@ WCTYPE = ["iswalnum", "iswalpha", "iswblank", "iswcntrl", "iswdigit", "iswgraph"
           "iswspace", "iswupper", "iswxdigit", "towlower", "towupper"]
 
 THEOREMS = {
-    "ctype": ["Tetl.C18.Props.ctype_eq"], "wctype": ["Tetl.C18.Props.wctype_eq"],
+    "ctype": ["Tetl.C18.Props.%s_eq" % f for f in CTYPE], "wctype": ["Tetl.C18.Props.%s_eq" % f for f in WCTYPE],
     "strlen": ["Tetl.C18.Props.strlen_eq"], "strcpy": ["Tetl.C18.Props.strcpy_eq"],
     "strncpy": ["Tetl.C18.Props.strncpy_eq"], "strcat": ["Tetl.C18.Props.strcat_eq"],
     "strncat": ["Tetl.C18.Props.strncat_eq"], "strcmp": ["Tetl.C18.Props.strcmp_eq"],
     "strncmp": ["Tetl.C18.Props.strncmp_eq"], "memcmp": ["Tetl.C18.Props.memcmp_eq"],
-    "strchr": ["Tetl.C18.Props.strchr_eq"], "strrchr": ["Tetl.C18.Props.strrchr_eq"],
-    "memchr": ["Tetl.C18.Props.memchr_eq"], "memcpy": ["Tetl.C18.Props.memcpy_eq"],
-    "memset": ["Tetl.C18.Props.memset_eq"], "memmove": ["Tetl.C18.Props.memmove_eq"],
-    "strspn": ["Tetl.C18.Props.strspn_eq"], "strcspn": ["Tetl.C18.Props.strcspn_eq"],
-    "strpbrk": ["Tetl.C18.Props.strpbrk_eq"], "strstr": ["Tetl.C18.Props.strstr_eq"],
-    "div": ["Tetl.C18.Props.div_eq"], "abs": ["Tetl.C18.Props.abs_eq"],
+    "strchr": ["Tetl.C18.Props.strchr_eq"], "memchr": ["Tetl.C18.Props.memchr_eq"],
+    "memcpy": ["Tetl.C18.Props.memcpy_eq"], "memset": ["Tetl.C18.Props.memset_eq"],
+    "memmove": ["Tetl.C18.Props.memmove_eq"],
+    "div": ["Tetl.C18.Props.div_eq", "Tetl.C18.Props.div_law"], "abs": ["Tetl.C18.Props.abs_eq"],
 }
 
 G = 238          # guard unit (0xEE): non-zero, not in any alphabet
@@ -423,4 +421,5 @@ LEVEL_NOTE = ("Trusted: Lean kernel + propext/Classical.choice/Quot.sound; the h
               "g++-12/ASan/UBSan; glibc 2.36 as oracle for spec validation. The clang-only __builtin_* branches are not "
               "exercised (harness built with g++). Functions without a theorem yet are listed in evidence "
               "coverage.correspondence_only and are covered by the differential run only.")
-CORRESPONDENCE_ONLY = []
+# functions modelled and compared on every run but without a Lean theorem yet
+CORRESPONDENCE_ONLY = ["strrchr/wcsrchr", "strspn/wcsspn", "strcspn/wcscspn", "strpbrk/wcspbrk", "strstr/wcsstr"]
